@@ -62,7 +62,7 @@ CHECKS = {
         "bounds": {}, "assumptions": ["self-test only"],
     },
     "C01": {
-        "runs": [dict(STORAGE, entries=["H01Prune"], bounds_quick={"recs": 3, "maxver": 97, "maxhist": 4, "nstatus": 4}, bounds_thorough={"recs": 4, "maxver": 97, "maxhist": 5}),
+        "runs": [dict(STORAGE, entries=["H01Prune"], bounds_quick={"recs": 3, "maxver": 97, "maxhist": 4, "nstatus": 4}, bounds_thorough={"recs": 3, "maxver": 997, "maxhist": 6, "nstatus": 5}),
                  dict(ACTION, entries=["H01Hist", "H01Crash"], bounds_quick={"depth": 2, "faults": 1, "crashes": 0, "maxhist": 2}, bounds_thorough={"depth": 2, "faults": 1, "crashes": 1, "maxhist": 2},
                       limits={"max_instrs": 20000000, "max_decisions": 2000}),
                  dict(ACTION, entries=["H01Hist"], tiers=["thorough"], bounds_thorough={"depth": 3, "faults": 0, "crashes": 0, "maxhist": 1},
